@@ -33,7 +33,7 @@ func init() {
 
 func runC17(c *Ctx) {
 	p := c.P
-	c.Rule("GENERATE-ONCE", "the cross-request bookkeeping is test-and-set and complete before the first request", 5)
+	c.Rule("GENERATE-ONCE", "the cross-request bookkeeping is test-and-set and complete before the first request", 4)
 	c.Rule("REQUEST-ORDER", "directories are sorted and requests are built and stored in order", 2)
 	c.Rule("RETENTION-VIEWS", "source-retention options are stripped only from the runtime view", 3)
 	c.Rule("NAME-CONFINED", "plugin-chosen names only reach the bucket API, and insertion points need an explicit read bucket", 3)
@@ -45,142 +45,46 @@ func runC17(c *Ctx) {
 		return
 	}
 	info := pk.TypesInfo
-	// (1) isFileToGenerate
-	if fr := p.Func("private/bufpkg/bufimage", "isFileToGenerate"); fr != nil {
-		g := p.CFGOf(fr.Decl.Body, info)
-		var used, nonImp types.Object
-		idx := 0
-		for _, fld := range fr.Decl.Type.Params.List {
-			for _, nm := range fld.Names {
-				if _, isMap := info.Defs[nm].Type().Underlying().(*types.Map); isMap {
-					if used == nil {
-						used = info.Defs[nm]
-					} else {
-						nonImp = info.Defs[nm]
-					}
-				}
-				idx++
-			}
-		}
-		if used == nil || nonImp == nil {
-			c.Fail("GENERATE-ONCE", "isFileToGenerate/params", fr.Decl.Pos(), "the two bookkeeping maps were not found among the parameters")
-		} else {
-			var stores []ast.Node
-			ast.Inspect(fr.Decl.Body, func(n ast.Node) bool {
-				if as, ok := n.(*ast.AssignStmt); ok && len(as.Lhs) == 1 {
-					if ix, ok := as.Lhs[0].(*ast.IndexExpr); ok && identObj(info, ix.X) == used {
-						stores = append(stores, as)
-					}
-				}
-				return true
-			})
-			// every `return true`: reachable from entry only through a store, or through the `used == nil` false edge.
-			// Model: paths to `return true` avoiding all stores must pass a `used != nil` test's false edge.
-			okAll, nTrue := true, 0
-			for _, r := range g.Returns() {
-				// every return that is not the constant false may say "generate" (`return includeWellKnownTypes` does)
-				if tv, has := info.Types[r.Results[0]]; has && tv.Value != nil && tv.Value.ExactString() == "false" {
-					continue
-				}
-				nTrue++
-				if g.ReachableAvoiding(nil, r, stores) {
-					// tolerated only if the path skipping the store goes through `if used != nil` being false
-					nilGuards := []ast.Node{}
-					ast.Inspect(fr.Decl.Body, func(n ast.Node) bool {
-						if ifs, ok := n.(*ast.IfStmt); ok {
-							if o, nonNil, ok := errNilTest(info, ifs.Cond); ok && o == used && nonNil {
-								for _, st := range ifs.Body.List {
-									for _, s := range stores {
-										if containsNode(st, s) {
-											nilGuards = append(nilGuards, ifs.Cond)
-										}
-									}
-								}
-							}
-						}
-						return true
-					})
-					if g.ReachableAvoiding(nil, r, append(append([]ast.Node{}, stores...), nilGuards...)) {
-						okAll = false
-					}
-				}
-			}
-			c.Ob("GENERATE-ONCE", "isFileToGenerate/set-before-true", fr.Decl.Pos(), okAll && nTrue >= 2, true, "every return that may be true (%d) is preceded by the store into the already-used set or by its nil test: %v", nTrue, okAll)
-			// imports found in either set return false; lookups precede the final store
-			lookups := 0
-			okFalse := true
-			ast.Inspect(fr.Decl.Body, func(n ast.Node) bool {
-				ifs, ok := n.(*ast.IfStmt)
-				if !ok || ifs.Init == nil {
-					return true
-				}
-				as, ok := ifs.Init.(*ast.AssignStmt)
-				if !ok || len(as.Rhs) != 1 {
-					return true
-				}
-				ix, ok := as.Rhs[0].(*ast.IndexExpr)
-				if !ok {
-					return true
-				}
-				o := identObj(info, ix.X)
-				if o != used && o != nonImp {
-					return true
-				}
-				lookups++
-				ret := false
-				for _, st := range ifs.Body.List {
-					if r, ok := st.(*ast.ReturnStmt); ok && exprString(r.Results[0]) == "false" {
-						ret = true
-					}
-				}
-				if !ret || identObj(info, ifs.Cond) != identObj(info, as.Lhs[1]) {
-					okFalse = false
-				}
-				// the lookup precedes the last store
-				if len(stores) > 0 && !g.Reachable(ifs.Cond, stores[len(stores)-1]) {
-					okFalse = false
-				}
-				return true
-			})
-			c.Ob("GENERATE-ONCE", "isFileToGenerate/found-returns-false", fr.Decl.Pos(), okFalse && lookups == 2, true, "an import found in the already-used set or in the non-import set is not generated (%d lookups, each returning false when found, before the final store): %v", lookups, okFalse)
-			// non-import files are always generated and recorded: the `!IsImport()` branch stores and returns true
-			first := false
-			if len(fr.Decl.Body.List) > 1 {
-				for _, st := range fr.Decl.Body.List {
-					if ifs, ok := st.(*ast.IfStmt); ok && strings.HasPrefix(exprString(ifs.Cond), "!") && strings.HasSuffix(exprString(ifs.Cond), "IsImport()") {
-						hasStore, retTrue := false, false
-						ast.Inspect(ifs.Body, func(n ast.Node) bool {
-							for _, s := range stores {
-								if n == s {
-									hasStore = true
-								}
-							}
-							if r, ok := n.(*ast.ReturnStmt); ok && exprString(r.Results[0]) == "true" {
-								retTrue = true
-							}
-							return true
-						})
-						first = hasStore && retTrue
-					}
-				}
-			}
-			c.Ob("GENERATE-ONCE", "isFileToGenerate/targets-recorded", fr.Decl.Pos(), first, true, "a non-import file is recorded in the already-used set and generated: %v", first)
-		}
-	} else {
-		c.Fail("GENERATE-ONCE", "isFileToGenerate", token.NoPos, "not found")
-	}
+	// (1) isFileToGenerate: the whole decision, as a truth table (robust to the shape of the control flow)
+	c17GenerateTable(c)
 	// ImagesToCodeGeneratorRequests: fill loop before request loop
 	if fr := p.Func("private/bufpkg/bufimage", "ImagesToCodeGeneratorRequests"); fr != nil {
 		g := p.CFGOf(fr.Decl.Body, info)
 		var fill, build ast.Node
 		var buildCall *ast.CallExpr
+		var fillStore ast.Node // the map store itself (in this function or in the helper that builds the set)
+		var fillFn *FuncRef
+		isPathKeyedStore := func(info *types.Info, x *ast.AssignStmt) bool {
+			if len(x.Lhs) != 1 {
+				return false
+			}
+			ix, ok := x.Lhs[0].(*ast.IndexExpr)
+			if !ok {
+				return false
+			}
+			_, isMap := info.TypeOf(ix.X).Underlying().(*types.Map)
+			return isMap && strings.HasSuffix(exprString(ix.Index), "Path()")
+		}
 		ast.Inspect(fr.Decl.Body, func(n ast.Node) bool {
 			switch x := n.(type) {
 			case *ast.AssignStmt:
-				if len(x.Lhs) == 1 {
-					if ix, ok := x.Lhs[0].(*ast.IndexExpr); ok {
-						if _, isMap := info.TypeOf(ix.X).Underlying().(*types.Map); isMap && strings.HasSuffix(exprString(ix.Index), "Path()") {
-							fill = x
+				if isPathKeyedStore(info, x) {
+					fill, fillStore, fillFn = x, x, fr
+				}
+				// the set is built by a helper of the package: `nonImportPaths = helper(images)`
+				if len(x.Lhs) == 1 && len(x.Rhs) == 1 {
+					if call, ok := ast.Unparen(x.Rhs[0]).(*ast.CallExpr); ok {
+						if _, isMap := info.TypeOf(x.Lhs[0]).Underlying().(*types.Map); isMap {
+							if fn := Callee(info, call); fn != nil && fn.Pkg() == pk.Types {
+								if h := p.DeclOf(fn); h != nil && h.Decl.Body != nil {
+									ast.Inspect(h.Decl.Body, func(m ast.Node) bool {
+										if hs, ok := m.(*ast.AssignStmt); ok && isPathKeyedStore(h.Info(), hs) {
+											fill, fillStore, fillFn = x, hs, h
+										}
+										return true
+									})
+								}
+							}
 						}
 					}
 				}
@@ -195,8 +99,8 @@ func runC17(c *Ctx) {
 		c.Ob("GENERATE-ONCE", "ImagesToCodeGeneratorRequests/non-import-set-complete", fr.Decl.Pos(), ok, true, "the non-import set is filled for all images before the first request is built (no fill reachable after a build): %v", ok)
 		// fill guarded by !IsImport
 		okG := false
-		if fill != nil {
-			for cur := p.Parent(fill); cur != nil && cur != fr.Decl; cur = p.Parent(cur) {
+		if fillStore != nil {
+			for cur := p.Parent(fillStore); cur != nil && cur != ast.Node(fillFn.Decl); cur = p.Parent(cur) {
 				if ifs, ok := cur.(*ast.IfStmt); ok && strings.HasPrefix(exprString(ifs.Cond), "!") && strings.HasSuffix(exprString(ifs.Cond), "IsImport()") {
 					okG = true
 				}
@@ -228,7 +132,7 @@ func runC17(c *Ctx) {
 		sorted := false
 		ast.Inspect(fr.Decl.Body, func(n ast.Node) bool {
 			if call, ok := n.(*ast.CallExpr); ok {
-				if fn := Callee(info, call); fn != nil && fn.Pkg() != nil && fn.Pkg().Path() == "sort" {
+				if fn := Callee(info, call); fn != nil && callSorts(p, fn, 2) {
 					sorted = true
 				}
 			}
@@ -516,4 +420,177 @@ func c17SameGetName(a, b ssa.Value) bool {
 		return false
 	}
 	return len(ca.Call.Args) == 1 && len(cb.Call.Args) == 1 && ca.Call.Args[0] == cb.Call.Args[0]
+}
+
+
+// c17GenerateTable extracts the decision of isFileToGenerate as a truth table over its atomic predicates and
+// compares it with the table the property demands:
+//
+//	generate  =  !isImport  ||  ( includeImports && !(isWKT && !includeWKT) && !inAlreadyUsed && !inNonImportElsewhere )
+//	recorded  =  generate && alreadyUsed != nil        (and nothing is recorded when the answer is no)
+//
+// where a lookup in a nil set is false. The function body is interpreted by bfeval under each of the consistent
+// assignments; it is not executed. An if-chain, a switch, hoisted lookups or early returns all yield the same table.
+func c17GenerateTable(c *Ctx) {
+	const rule = "GENERATE-ONCE"
+	p := c.P
+	fr := p.Func("private/bufpkg/bufimage", "isFileToGenerate")
+	if fr == nil {
+		c.Fail(rule, "isFileToGenerate", token.NoPos, "not found")
+		return
+	}
+	info := fr.Info()
+	var used, nonImp, incImports, incWKT types.Object
+	for _, fld := range fr.Decl.Type.Params.List {
+		for _, nm := range fld.Names {
+			o := info.Defs[nm]
+			switch o.Type().Underlying().(type) {
+			case *types.Map:
+				if used == nil {
+					used = o
+				} else {
+					nonImp = o
+				}
+			case *types.Basic:
+				if incImports == nil {
+					incImports = o
+				} else {
+					incWKT = o
+				}
+			}
+		}
+	}
+	if used == nil || nonImp == nil || incImports == nil || incWKT == nil {
+		c.Fail(rule, "isFileToGenerate/params", fr.Decl.Pos(), "expected two set parameters and two boolean parameters")
+		return
+	}
+	type asg struct{ isImport, incImports, incWKT, isWKT, usedNonNil, nonImpNonNil, inUsed, inNonImp bool }
+	bad, n := "", 0
+	for bits := 0; bits < 256 && bad == ""; bits++ {
+		v := asg{bits&1 != 0, bits&2 != 0, bits&4 != 0, bits&8 != 0, bits&16 != 0, bits&32 != 0, bits&64 != 0, bits&128 != 0}
+		if (v.inUsed && !v.usedNonNil) || (v.inNonImp && !v.nonImpNonNil) {
+			continue // membership in a nil set is impossible
+		}
+		n++
+		atom := func(e ast.Expr) (tri, bool) {
+			e = ast.Unparen(e)
+			switch x := e.(type) {
+			case *ast.Ident:
+				switch info.Uses[x] {
+				case incImports:
+					return triOf(v.incImports), true
+				case incWKT:
+					return triOf(v.incWKT), true
+				}
+			case *ast.CallExpr:
+				if sel, ok := x.Fun.(*ast.SelectorExpr); ok && sel.Sel.Name == "IsImport" && len(x.Args) == 0 {
+					return triOf(v.isImport), true
+				}
+				if fn := Callee(info, x); fn != nil && fn.Name() == "Exists" && fn.Pkg() != nil && strings.HasSuffix(fn.Pkg().Path(), "/datawkt") {
+					return triOf(v.isWKT), true
+				}
+			case *ast.BinaryExpr:
+				if x.Op == token.NEQ || x.Op == token.EQL {
+					var m types.Object
+					if isNilIdent(info, x.Y) {
+						m = identObj(info, x.X)
+					} else if isNilIdent(info, x.X) {
+						m = identObj(info, x.Y)
+					}
+					var nonNil bool
+					switch m {
+					case used:
+						nonNil = v.usedNonNil
+					case nonImp:
+						nonNil = v.nonImpNonNil
+					default:
+						return triUnknown, false
+					}
+					if x.Op == token.EQL {
+						nonNil = !nonNil
+					}
+					return triOf(nonNil), true
+				}
+			}
+			return triUnknown, false
+		}
+		lookup := func(m ast.Expr) (tri, bool) {
+			switch identObj(info, m) {
+			case used:
+				return triOf(v.inUsed), true
+			case nonImp:
+				return triOf(v.inNonImp), true
+			}
+			return triUnknown, false
+		}
+		store := func(m ast.Expr) (string, bool) {
+			switch identObj(info, m) {
+			case used:
+				if !v.usedNonNil {
+					return "store into the nil already-used set (panic)", true
+				}
+				return "recorded", true
+			case nonImp:
+				return "store into the non-import set", true
+			}
+			return "", false
+		}
+		out := bfEvalFunc(info, fr.Decl.Body, atom, lookup, store)
+		if out.Undecided != "" {
+			bad = fmt.Sprintf("undecided for %+v: %s", v, out.Undecided)
+			break
+		}
+		want := !v.isImport || (v.incImports && !(v.isWKT && !v.incWKT) && !v.inUsed && !v.inNonImp)
+		wantRecorded := want && v.usedNonNil
+		recorded := false
+		for _, e := range out.Effects {
+			if e == "recorded" {
+				recorded = true
+			} else {
+				bad = fmt.Sprintf("for %+v: %s", v, e)
+			}
+		}
+		if bad != "" {
+			break
+		}
+		if (out.Value == triTrue) != want {
+			bad = fmt.Sprintf("for %+v the code answers generate=%v, the property demands %v", v, out.Value == triTrue, want)
+		} else if recorded != wantRecorded {
+			bad = fmt.Sprintf("for %+v the code records the path in the already-used set=%v, the property demands %v (a generated file must be recorded so that no later request generates it again; a file that is not generated must not be)", v, recorded, wantRecorded)
+		}
+	}
+	c.Ob(rule, "isFileToGenerate/truth-table", fr.Decl.Pos(), bad == "", true,
+		"%d consistent assignments of (isImport, includeImports, includeWKT, isWKT, set nil-ness, memberships) evaluated on the extracted decision; first disagreement with generate = !isImport || (includeImports && !(isWKT && !includeWKT) && !inUsed && !inNonImportElsewhere), recorded = generate && used != nil: %s", n, bad)
+}
+
+
+// callSorts: fn is a sort of the standard library (sort.*, slices.Sort*), or a function of the module whose body
+// calls one (a sorting producer such as slicesext.MapKeysToSortedSlice), followed to the given depth.
+func callSorts(p *Prog, fn *types.Func, depth int) bool {
+	if fn == nil || fn.Pkg() == nil {
+		return false
+	}
+	switch fn.Pkg().Path() {
+	case "sort":
+		return true
+	case "slices":
+		return strings.HasPrefix(fn.Name(), "Sort") || fn.Name() == "Sorted" || fn.Name() == "SortedFunc"
+	}
+	if depth == 0 || !strings.HasPrefix(fn.Pkg().Path(), modPath) {
+		return false
+	}
+	fr := p.DeclOf(fn)
+	if fr == nil || fr.Decl.Body == nil {
+		return false
+	}
+	found := false
+	ast.Inspect(fr.Decl.Body, func(n ast.Node) bool {
+		if call, ok := n.(*ast.CallExpr); ok && !found {
+			if cf := Callee(fr.Info(), call); cf != nil && cf != fn && callSorts(p, cf, depth-1) {
+				found = true
+			}
+		}
+		return true
+	})
+	return found
 }
